@@ -600,6 +600,56 @@ R.contract(
     ensures={"a_non_string_constant_denotes_itself": "same_ref(result, expr) or result == expr"},
 )
 
+
+# ------------------------------------------------------------------------------------------------- object keys in link bodies: the evaluated key in its JSON spelling
+_evc = R.contracts[EXP + "evaluate"]
+_evc_returns_before = _evc.returns
+
+
+def _ev_dispatch(it, env):
+    if getattr(it.top_contract, "target", "").endswith("_evaluate_object_key") and getattr(it.top_contract, "variant", None) == "spelling":
+        v = OneOf(Str, Bool, Int, NoneT, UNRES_, Const(("a", 1))).make(it, it.path.fresh("evaluated_key"))
+        it.ghost["evaluated_key"] = v
+        return v
+    return _evc_returns_before(it, env)
+
+
+_evc.returns = _ev_dispatch
+R.extern["json.dumps"] = lambda it, a, k: ("json-text-of", a[0])
+R.contract(
+    EXP + "_evaluate_object_key",
+    variant="spelling",
+    prop="C10",
+    args={"key": Opq("Expr"), "output": Opq("Out")},
+    ghost={"evaluated_key": None, "evaluated": []},
+    raises=["ValueError"],
+    ensures={
+        # a key of a link requestBody object is an expression too; JSON object keys are strings: text as it is, true / false / null and numbers in their JSON spelling, anything else as JSON text
+        "text_keys_unchanged_and_scalars_in_json_spelling": "same_ref(result, ghost('evaluated_key')) if (is_text_(ghost('evaluated_key')) or ghost('evaluated_key') is UNRESOLVABLE()) else "
+            "(result == json_key(ghost('evaluated_key')))",
+    },
+)
+R.spec_funcs["is_text_"] = lambda it, v: isinstance(v, str) or type(v).__name__ == "SStr"
+
+
+def _json_key(it, v):
+    import z3
+    from pyvc.values import SBool, SInt, wrap
+    from pyvc.builtins_ import str_
+
+    if isinstance(v, bool):
+        return "true" if v else "false"
+    if isinstance(v, SBool):
+        return wrap(z3.If(v.z, z3.StringVal("true"), z3.StringVal("false")))
+    if v is None:
+        return "null"
+    if isinstance(v, (int, SInt)):
+        return str_(it, v)
+    return ("json-text-of", v)
+
+
+R.spec_funcs["json_key"] = _json_key
+
 LEVEL_TEXT = ("Deductive: structural recursion of evaluate/_evaluate_nested against a denotation (lists of any length by invariant, dicts up to 2 entries), node evaluation, "
               "status matching; the expression lexer/parser and JSON-pointer resolution are covered by exhaustive bounded stand-ins. Level other.")
 LEVEL_NOTE = "Trusted: lexer/parser/resolve_pointer (stand-ins), requests URL preparation, expand_status_code (C04), pyvc semantics (E9)."
